@@ -55,6 +55,8 @@ class State:
         s.diag = {}         # head -> vector head: head[...,a,b] = vec[...,a] * delta[a,b]
         s.stats = Counter()
         s.le_facts = set()  # (repr(a), repr(b)) : a <= b assumed by the analysed code's own guards
+        s.generic_nonzero = False
+        s.scalar_matrix = set()   # symmetric heads whose matrix dimension is the literal 1 (no matrix indices)
 
 
 ST = State()
@@ -167,6 +169,8 @@ def atom(name, sizes, sym=False, kind="float", owner=None):
         ST.head[name] = HeadInfo("atom", sym=sym)
     if owner is not None and sizes and not D(sizes[0]).is_one():
         ST.head[name].extra = ("batch0", owner)
+    if sym and len(sizes) >= 2 and D(sizes[-1]).is_one() and D(sizes[-2]).is_one():
+        ST.scalar_matrix.add(name)
     axes = []
     idx = []
     for sz in sizes:
@@ -844,6 +848,26 @@ def _terms_sig(nterms):
     return tuple(sorted((repr(c), tuple(sorted((h, len(ix)) for h, ix in n.f))) for c, n in nterms))
 
 
+PARITY = {"Phi": "complement", "phi": "even", "Normpdf": "even", "Cosh": "even", "Tanh": "odd", "Abs": "even"}
+
+
+def _negative_orientation(nt):
+    """deterministic choice between x and -x: the term with the smallest structural key has a negative leading coefficient."""
+    def key(t):
+        c, n = t
+        return (len(n.f), tuple(sorted((h.split("#")[0], len(ix)) for h, ix in n.f)), tuple(sorted(map(str, abs_dim(c).t))))
+    c, n = min(nt, key=key)
+    ks = [t for t in nt if key(t) == key((c, n))]
+    if len(ks) > 1:
+        return False
+    lead = sorted(c.t.items())[0][1]
+    return lead < 0
+
+
+def abs_dim(c):
+    return Dim({k: abs(v) for k, v in c.t.items()})
+
+
 def elementwise(kind, v, extra=None):
     """opaque elementwise function application  kind(v)."""
     v = as_val(v)
@@ -858,6 +882,18 @@ def elementwise(kind, v, extra=None):
         return Val(v.axes, [])
     if kind == "Recip" and len(nt) == 1 and not nt[0][1].f and nt[0][0].is_const():
         return Val(v.axes, [(D(1) / nt[0][0], Net())])
+    if kind == "IsFinite":
+        # arrays are built from finite generic tensors (infinite constants are not modelled): the guard is identically true
+        return Val(v.axes, [(D(1), Net())], kind="bool")
+    if kind == "Ne0" and ST.generic_nonzero and nt:
+        return Val(v.axes, [(D(1), Net())], kind="bool")       # a non-zero normal form is non-zero for generic inputs
+    if kind in PARITY and nt and _negative_orientation(nt):
+        pos = elementwise(kind, neg(v), extra)
+        if PARITY[kind] == "even":
+            return pos
+        if PARITY[kind] == "odd":
+            return neg(pos)
+        return add(const(1), pos, -1)                            # Phi(-x) = 1 - Phi(x)
     lifted = _try_lift(v, nt, lambda x: elementwise(kind, x, extra))
     if lifted is not None:
         return lifted
@@ -904,15 +940,19 @@ def inverse(v, what="inverse"):
     baxes = axes[:-2]
     mvars = tuple(A) + tuple(B)
     # --- single known head: use its registered partner / log-determinant
-    if len(nt) == 1 and len(nt[0][1].f) == 1 and nt[0][0].is_const() and A and B:
+    scalar = (not A) and (not B)
+    if len(nt) == 1 and len(nt[0][1].f) == 1 and nt[0][0].is_const() and ((A and B) or scalar):
         c, n = nt[0]
         h, ix = n.f[0]
-        if len(ix) >= 2 and set(ix[-2:]) == {A[0], B[0]} and ST.head[h].sym and ST.head[h].kind != "Inv" and all(x in m for x in ix) and len(set(ix)) == len(ix):
+        if ((scalar and ST.head[h].kind in ("atom", "InvAtom")) or (len(ix) >= 2 and A and B and set(ix[-2:]) == {A[0], B[0]})) and ST.head[h].sym and ST.head[h].kind != "Inv" and all(x in m for x in ix) and len(set(ix)) == len(ix):
             if h not in ST.pair:
                 nh = f"Inv({h})"
                 ST.head[nh] = HeadInfo("InvAtom", sym=True)
                 ST.pair[h] = nh
                 ST.pair[nh] = h
+                if scalar:
+                    ST.scalar_matrix.add(h)
+                    ST.scalar_matrix.add(nh)
             ph = ST.pair[h]
             if h in ST.lndet and ph not in ST.lndet:
                 ST.lndet[ph] = (-ST.lndet[h][0], ST.lndet[h][1])
@@ -927,10 +967,11 @@ def inverse(v, what="inverse"):
                     ST.lndet[h] = (1, lh)
                     ST.lndet[ph] = (-1, lh)
             lc, lh = ST.lndet[h]
-            ld_terms = [(D(lc), Net([(lh, tuple(m[x] for x in ix[:-2]))]))]
+            bix = ix if scalar else ix[:-2]
+            ld_terms = [(D(lc), Net([(lh, tuple(m[x] for x in bix))]))]
             if not c.is_one():
                 lg = elementwise("Log", const(c))
-                ld_terms = ld_terms + [(cc * ST.size[A[0]], nn) for cc, nn in lg.terms]
+                ld_terms = ld_terms + [(cc * (D(1) if scalar else ST.size[A[0]]), nn) for cc, nn in lg.terms]
             return inv, Val(baxes, ld_terms)
     # --- diagonal argument  d[...,a] * delta[a,b]
     dg = _as_diagonal(nt, A, B)
@@ -978,6 +1019,12 @@ def logdet(v, what="slogdet"):
     axes, m = fresh_axes(v.axes)
     baxes = axes[:-2]
     mvars = tuple(A) + tuple(B)
+    scalar = (not A) and (not B)
+    if scalar and len(nt) == 1 and len(nt[0][1].f) == 1 and nt[0][0].is_one():
+        h, ix = nt[0][1].f[0]
+        if h in ST.lndet and all(x in m for x in ix):
+            lc, lh = ST.lndet[h]
+            return Val(baxes, [(D(lc), Net([(lh, tuple(m[x] for x in ix))]))])
     if len(nt) == 1 and len(nt[0][1].f) == 1 and nt[0][0].is_one() and A and B:
         c, n = nt[0]
         h, ix = n.f[0]
@@ -1070,7 +1117,18 @@ def simplify(coef, net, free):
         # ---- inverse pairs
         for i1, (h1, x1) in enumerate(f):
             p = ST.pair.get(h1)
-            if p is None or len(x1) < 2:
+            if p is None:
+                continue
+            hit = False
+            for i2, (h2, x2) in enumerate(f):
+                # 1 x 1 matrices (literal dimension one): S[r] * L[r] = 1
+                if i2 != i1 and h2 == p and x2 == x1 and h1 in ST.scalar_matrix and p in ST.scalar_matrix:
+                    f = [g for k, g in enumerate(f) if k not in (i1, i2)]
+                    changed = hit = True
+                    break
+            if hit:
+                break
+            if len(x1) < 2:
                 continue
             for i2, (h2, x2) in enumerate(f):
                 if i1 == i2 or h2 != p or len(x2) != len(x1) or x1[:-2] != x2[:-2]:
@@ -1121,6 +1179,22 @@ def simplify(coef, net, free):
                         if j not in free and j not in still:
                             coef = coef * ST.size[j]      # a summed index whose summand became 1
                     changed = True
+                    break
+            if changed:
+                break
+        if changed:
+            continue
+        # ---- sqrt(X) * sqrt(X) -> X   (X a single head)
+        for i1, (h1, x1) in enumerate(f):
+            if H[h1].kind != "Sqrt":
+                continue
+            for i2, (h2, x2) in enumerate(f):
+                if i2 > i1 and h2 == h1 and x2 == x1:
+                    arg = H[h1].arg[1]
+                    if len(arg) == 1 and arg[0][0].is_one() and all(y in H[h1].bslots for _, jx in arg[0][1].f for y in jx):
+                        m = dict(zip(H[h1].bslots, x1))
+                        f = [g for k, g in enumerate(f) if k not in (i1, i2)] + [(hh, tuple(m[y] for y in jx)) for hh, jx in arg[0][1].f]
+                        changed = True
                     break
             if changed:
                 break
